@@ -153,7 +153,7 @@ class DM:
 
         # stash inputs and some computed values on self
         self.ifn = ifn
-        self.Ifn = fft.fft2(ifn)
+        self.Ifn = fft.fft2(fft.ifftshift(ifn))  # ifn is centered on N//2; its transfer function needs the origin at [0,0]
         self.Nout = Nout
         self.Nact = Nact
         self.sep = sep
